@@ -472,8 +472,11 @@ def md5_term(data):
     f = md5_uf(n)
     if n == 0:
         return f
-    parts = [core._cbv(c) for c in data.cs]
-    return f(z3.Concat(*parts) if n > 1 else parts[0])
+    if core.active() and core.EX.known:
+        parts = [core._cbv(core.EX.canon_char(c)) for c in data.cs]
+    else:
+        parts = [core._cbv(c) for c in data.cs]
+    return f(z3.simplify(z3.Concat(*parts)) if n > 1 else parts[0])
 
 
 class Md5Stub:
